@@ -578,9 +578,19 @@ def _resolve_all(attrs):
 
 def run_rt(text, expect):
     """-> (fails, labels). expect = expected dump_attrs structure (from the generator) or None."""
+    STEPS[0] = 0
+    STEPS[1] = lim = 4 * budget(len(text))  # two parses, serialisations, compile+resolve of both
+    try:
+        return _run_rt(text, expect)
+    except StepBudgetExceeded:
+        return [("[rt] more than %d scanner loop iterations while round-tripping %s" % (lim, _short(text)), "budget:rt")], ["rt_budget"]
+    finally:
+        STEPS[1] = INF
+
+
+def _run_rt(text, expect):
     r = _rt()
     fails = []
-    STEPS[1] = INF
     try:
         _, attrs = r.parse_tag(text, r.parser)
     except r.TSE as e:
@@ -1009,25 +1019,62 @@ def plan(tier, seed, scale=1.0):
     return specs
 
 
-def _check_strs(col, pinned):
-    seen_pinned = set()
+class _Sink:
+    """Failure routing inside a Hypothesis shard.
 
+    * buckets pinned by a regress witness: recorded once per shard, the search goes on (they must not hide other root causes);
+    * step-budget failures are never handed to the shrinker (every failing candidate burns its whole budget): the shortest of
+      the first 3 is recorded when the shard ends and the rest of the shard is skipped;
+    * everything else goes back to hyp_search, which shrinks and records the first one.
+    """
+
+    def __init__(self, col, pinned):
+        self.col, self.pinned = col, pinned
+        self.seen_pinned = set()
+        self.n_budget = 0
+        self.best_budget = None
+
+    @property
+    def tripped(self):
+        if self.n_budget >= 3:
+            self.col.count("examples_skipped_after_3_step_budget_failures")
+            return True
+        return False
+
+    def route(self, case, fails, size):
+        out = []
+        for m, bk in fails:
+            if bk.startswith("budget:"):
+                self.n_budget += 1
+                if self.best_budget is None or size < self.best_budget[0]:
+                    self.best_budget = (size, case, m, bk)
+            elif bk in self.pinned:
+                if bk not in self.seen_pinned:
+                    self.seen_pinned.add(bk)
+                    self.col.fail(case, m, bk, finding=attribute(case, m, bk))
+                self.col.count("fail_pinned:" + bk)
+            else:
+                out.append((m, bk))
+        return out
+
+    def flush(self):
+        if self.best_budget is not None:
+            _, case, m, bk = self.best_budget
+            self.col.fail(case, m, bk, finding=attribute(case, m, bk))
+        return self.col
+
+
+def _check_strs(col, sink):
     def check(case):
+        if sink.tripped:
+            return []
         out = []
         for s in case["ss"]:
             fails, labels = run_string(s, case["tags"])
             nt = not QB.isdisjoint(s)
             one = {"part": "str", "s": s, "tags": case["tags"]}
             col.case(s, nt, sample=one if nt else None, labels=labels + ["fuzz"])
-            for m, bk in fails:
-                if bk in pinned:
-                    # already pinned by a regress witness: record once per shard and keep searching for other root causes
-                    if bk not in seen_pinned:
-                        seen_pinned.add(bk)
-                        col.fail(one, m, bk, finding=attribute(one, m, bk))
-                    col.count("fail_pinned:" + bk)
-                else:
-                    out.append((m, bk))
+            out.extend(sink.route(one, fails, len(s)))
         return out
 
     return check
@@ -1056,42 +1103,38 @@ def run_shard(spec):
         return _run_atheris(spec, col)
 
     S = _strategies()
-    pinned = _pinned_buckets()
+    sink = _Sink(col, _pinned_buckets())
     if kind in ("fuzz_direct", "fuzz_tags"):
         tags = [] if kind == "fuzz_direct" else TAG_NAMES
         strat = S.fuzz.map(lambda ss: {"part": "strs", "ss": ss, "tags": tags})
-        return hyp_search(strat, _check_strs(col, pinned), col, max_examples=max(5, spec["n"] // S.batch), seed=spec["seed"], attribute=attribute)
+        hyp_search(strat, _check_strs(col, sink), col, max_examples=max(5, spec["n"] // S.batch), seed=spec["seed"], attribute=attribute)
+        return sink.flush()
     if kind == "src":
 
-        seen_pinned = set()
-
         def check_src(src):
+            if sink.tripped:
+                return []
             fails, labels = run_src(src)
             nt = ('"' in src or "'" in src) and "{%" in src
             case = {"part": "src", "src": src}
             col.case(src, nt, sample=case if nt else None, labels=labels)
-            out = []
-            for m, bk in fails:
-                if bk in pinned:
-                    if bk not in seen_pinned:
-                        seen_pinned.add(bk)
-                        col.fail(case, m, bk, finding=attribute(case, m, bk))
-                    col.count("fail_pinned:" + bk)
-                else:
-                    out.append((m, bk))
-            return out
+            return sink.route(case, fails, len(src))
 
-        return hyp_search(S.src, check_src, col, max_examples=spec["n"], seed=spec["seed"], attribute=lambda c, m, b: attribute({"part": "src", "src": c}, m, b))
+        hyp_search(S.src, check_src, col, max_examples=spec["n"], seed=spec["seed"], attribute=lambda c, m, b: attribute({"part": "src", "src": c}, m, b))
+        return sink.flush()
     if kind == "rt":
         NT = {"list", "dict", "spread", "filter_arg", "trans", "nested"}
 
         def check_rt(case):
+            if sink.tripped:
+                return []
             fails, labels = run_rt(case["text"], case["expect"])
             nt = bool(NT & set(case["kinds"]))
             col.case(case["text"], nt, sample=case if nt else None, labels=labels + ["rt_has_" + k for k in case["kinds"]])
-            return fails
+            return sink.route(case, fails, len(case["text"]))
 
-        return hyp_search(S.valid_tag, check_rt, col, max_examples=spec["n"], seed=spec["seed"], attribute=attribute)
+        hyp_search(S.valid_tag, check_rt, col, max_examples=spec["n"], seed=spec["seed"], attribute=attribute)
+        return sink.flush()
     raise ValueError(kind)
 
 
